@@ -116,7 +116,7 @@ func NewIPv4Allocator(start, end net.IP) (*IPv4Allocator, error) {
 	if alloc.start > alloc.end {
 		return nil, errors.New("no IPs in the given range to allocate")
 	}
-	alloc.bitmap = bitset.New(uint(alloc.end - alloc.start + 1))
+	alloc.bitmap = bitset.New(uint(alloc.end-alloc.start) + 1)
 
 	return &alloc, nil
 }
